@@ -242,7 +242,12 @@ impl<'t, 'a> FlowGen<'t, 'a> {
                             body.insert(0, put(e, &v))
                         }
                     }
-                    let cond = if self.t.chance(1, 3) { un(UnOp::Not, var(&v)) } else { var(&v) };
+                    let cond = match self.t.pick(4) {
+                        0 => un(UnOp::Not, var(&v)),
+                        // any condition shape in a loop header too (orderings that are errors for some kinds, lists, ...)
+                        1 => self.cond(loop_level),
+                        _ => var(&v),
+                    };
                     out.push(if until { Stmt::Until { cond, body } } else { Stmt::While { cond, body } });
                 }
             }
